@@ -369,6 +369,42 @@ func (in *Interp) modelInputs(extra ...*Term) ([]Input, Result) {
 		terms[i] = inp.Term
 	}
 	res, vals := in.Solver.CheckModel(extra, terms)
+	// an obligation that is not discharged by the incremental solver is decided again from scratch
+	// in fresh processes of both z3 versions (DESIGN.md §5.4): sat is kept only if a fresh solver
+	// confirms it, unknown may become decided
+	if res != Unsat && !(in.noFresh && res == Sat) {
+		to := in.Solver.timeoutMs
+		fs := &in.Solver.FreshStats
+		decided := false
+		for _, kind := range []string{"z3-new", "z3"} {
+			fr, fvals := in.Solver.FreshCheck(kind, to, extra, terms)
+			if fr == Unsat {
+				if res == Sat {
+					fs.SatRefuted++
+				} else {
+					fs.UnknownDecided++
+				}
+				res, vals, decided = Unsat, nil, true
+				break
+			}
+			if fr == Sat {
+				if res == Sat {
+					fs.SatConfirmed++
+				} else {
+					fs.UnknownDecided++
+				}
+				res, vals, decided = Sat, fvals, true
+				break
+			}
+		}
+		if !decided {
+			fs.Undecided++
+			if res == Sat {
+				res = Unknown // an unconfirmed sat of the incremental session is not reported as a counterexample
+				in.Solver.LastError = "incremental solver answered sat; not confirmed by a fresh solver process"
+			}
+		}
+	}
 	if res != Sat {
 		return nil, res
 	}
@@ -452,15 +488,18 @@ func (in *Interp) obligation(fr *frame, cond value, label string, finding string
 			in.exp.unknowns++
 			in.noteInconclusive(fmt.Sprintf("obligation %s: solver %s (%s)", label, res, in.Solver.LastError))
 		}
-		// B: the known finding itself
-		inputsB, resB := in.modelInputs(neg, sigT)
-		if resB == Sat {
-			seen := false
-			for _, k := range st.Known {
-				if k.Finding == finding {
-					seen = true
-				}
+		// B: the known finding itself (once it has been recorded on this instance, further
+		// occurrences need no confirmed model)
+		seen := false
+		for _, k := range st.Known {
+			if k.Finding == finding {
+				seen = true
 			}
+		}
+		in.noFresh = seen
+		inputsB, resB := in.modelInputs(neg, sigT)
+		in.noFresh = false
+		if resB == Sat {
 			if !seen {
 				in.record(&st.Known, Violation{Label: label, Kind: "known", Finding: finding, Inputs: inputsB, Pos: pos})
 			}
